@@ -13,3 +13,6 @@ pub uninterp spec fn cof(g: G1Affine) -> AS;                   // mul_by_cofacto
 #[verifier::external_body] pub fn from_random_bytes(b: &Vec<u8>) -> (r: Option<G1Affine>) ensures r == frb(b@) { unimplemented!() }
 #[verifier::external_body] pub fn mul_by_cofactor_to_group(g: G1Affine) -> (r: G1) ensures r@ == cof(g) { unimplemented!() }
 #[verifier::external_body] pub fn ctr_inc_u64(j: &mut u64) ensures *final(j) == *old(j) + 1 { unimplemented!() }      // j += 1 (assumption: fewer than 2^64 retries)
+pub uninterp spec fn frf(b: Seq<u8>) -> Option<Fr>;            // <ScalarField as Field>::from_random_bytes
+#[verifier::external_body] pub fn field_from_random_bytes(b: &Vec<u8>) -> (r: Option<Fr>) ensures r == frf(b@) { unimplemented!() }
+#[verifier::external_body] pub fn bytes_to_vec(b: &[u8]) -> (r: Vec<u8>) ensures r@ == b@ { unimplemented!() }                               // <[u8]>::to_vec
